@@ -52,13 +52,6 @@ def beBytes : Nat → Nat → B
   | 0, _ => []
   | w + 1, v => UInt8.ofNat (v / 256 ^ w) :: beBytes w v
 
-/-- Sequential `write_all` of a list of chunks, stopping at the first failure. -/
-def Writer.writeChunks (w : Writer) : List B → Option Writer
-  | [] => some w
-  | c :: cs => match Writer.writeAll w c with
-    | none => none
-    | some w' => Writer.writeChunks w' cs
-
 /-- The chunks a payload hands to the writer, or `none` when the value is refused
 up front (16-bit length check). -/
 def Payload.chunks : Payload → Option (List B)
